@@ -36,7 +36,43 @@ META = {
 }
 
 
+def alap_propagation_rule(ctx: Ctx, rid: str):
+    """Backward mode reaches every predecessor of an anchored task: the walk of Project._markTaskALAP never stops AT a task that is
+    backward (by its own `scheduling alap` or by an earlier step of the walk) without pushing that task's predecessors.  Each
+    `continue` of the walk is examined under its must-facts: leaving under `forward is False` (and not under "already visited")
+    cuts the chain behind a task that says `scheduling alap` itself."""
+    from .common import facts_of
+    fn = ctx.repo.func("Project._markTaskALAP")
+    g = cfg_of(fn)
+    facts = facts_of(fn)
+    loops = [w for w in own_nodes(fn) if isinstance(w, (ast.While, ast.For))]
+    if not loops:
+        raise AnchorMissing("_markTaskALAP: no work loop (recursive form is not interpreted)")
+    pushes = [c for c in own_nodes(fn) if isinstance(c, ast.Call) and isinstance(c.func, ast.Attribute) and c.func.attr in ("extend", "append", "appendleft")
+              and norm(c.func.value) in {norm(l.test) for l in loops if isinstance(l, ast.While)}]
+    if not pushes:
+        raise AnchorMissing("_markTaskALAP: the push of the predecessors onto the work list was not found")
+    n = 0
+    for node in g.nodes:
+        if not (node.kind == "stmt" and isinstance(node.ast, (ast.Continue, ast.Return))):
+            continue
+        units = {tuple(cl)[0] for cl in facts.at(node) if len(cl) == 1}
+        visited = any(" in processed" in t and p for (t, p) in units)
+        backward = any((t.replace(" ", "") in ("forwardisFalse", "forward==False") and p) or (t == "forward" and p is False) or (t == "not forward" and p)
+                       for (t, p) in units)
+        n += 1
+        ok = not backward or visited
+        ctx.ob(rid, f"{fn.qual}: leaves the step at line {node.ast.lineno} under {sorted(t for t, p in units if 'forward' in t or 'processed' in t or 'leaf' in t)}",
+               (fn, node.ast), ok,
+               "the walk stops only at tasks it has visited or does not turn backward" if ok else
+               "the walk leaves a task that IS backward without pushing its predecessors: backward mode does not propagate through a task "
+               "that says `scheduling alap` itself, its predecessors stay forward and leave the time before their deadline idle",
+               key=key_of(rid, fn, None, f"stop at backward task {n}"))
+    ctx.floor(rid, 2)
+
+
 def run_extra(ctx: Ctx):
+    alap_propagation_rule(ctx, "R08.14")
     # ---------------------------------------------------------------- R08.13 an ALAP task's deadline is the earliest start of ALL its successors, including those that depend on it through their container (= C04 R04.1)
     from .c04 import edge_set_rule
     edge_set_rule(ctx, "R08.13", only={"TaskScenario._getSuccessors", "TaskScenario._gapToSuccessor", "TaskScenario._alapReadyForScheduling"})
